@@ -157,8 +157,8 @@ Proof.
         rewrite !esum_app, net_leader_effects. specialize (IH Hc2). lia.
     + destruct (l_chaser (get_level h' lv) || (h' =? 0)%nat).
       * cbn [fst snd]. rewrite net_return_errors by assumption. lia.
-      * specialize (IH false leader (set_buf h' [] lv) (fst stamp, snd stamp) r).
-        destruct (flush c t p h' false leader (set_buf h' [] lv) (fst stamp, snd stamp) r) as [res effs2]. cbn [fst snd] in *.
+      * match goal with |- context [flush c t p h' false leader (set_buf h' [] lv) ?sx r] => specialize (IH false leader (set_buf h' [] lv) sx r) end.
+        match goal with |- context [flush c t p h' false leader (set_buf h' [] lv) ?sx r] => destruct (flush c t p h' false leader (set_buf h' [] lv) sx r) as [res effs2] end. cbn [fst snd] in *.
         rewrite has_crash_app in Hc. apply orb_false_iff in Hc as [_ Hc2].
         rewrite esum_app, net_return_errors by assumption. specialize (IH Hc2). lia.
 Qed.
